@@ -1,5 +1,6 @@
 import PcfgVerif.Properties.LoaderCore
 import PcfgVerif.Properties.SkipBruteOrder
+import PcfgVerif.Generated.CliOptions
 /-!
 # C14 — skip_brute and all_lower are pure restrictions of the default run
 
@@ -61,5 +62,19 @@ theorem C14_order_preserved (total : Rat) (ht : 0 < total) (bp1 bp2 : Rat)
     SkipBrute.O.le (probFold SkipBrute.O (bp1 / total) cols1 idx1) (probFold SkipBrute.O (bp2 / total) cols2 idx2) =
     SkipBrute.O.le (probFold SkipBrute.O bp1 cols1 idx1) (probFold SkipBrute.O bp2 cols2 idx2) :=
   SkipBrute.skip_brute_le total ht bp1 bp2 cols1 cols2 idx1 idx2
+
+/-- **a restored session runs with the flags of its save file** (glue of `pcfg_guesser.py`, regenerated from the source on every run):
+after option parsing the only writes to `program_info` are the three in `load_save`, each taken from the save file (`rule_name`,
+`skip_brute`, `skip_case`); `main` itself assigns nothing and no write uses a computed key, so whatever `--skip_brute` /
+`--all_lower` is typed next to `--load` is overwritten before the grammar is built (`Generated.Session.loadSaveBeforeGrammar`). -/
+theorem C14_load_takes_saved_flags :
+    Generated.CliOptions.guesserAssign.filter (fun a => a.1 != "parse_command_line") =
+      [("load_save", "rule_name", "save_config.get('rule_info', 'rule_name')"),
+       ("load_save", "skip_brute", "save_config.getboolean('rule_info', 'skip_brute')"),
+       ("load_save", "skip_case", "save_config.getboolean('rule_info', 'skip_case')")] ∧
+    Generated.CliOptions.guesserAssign.all (fun a => a.2.1 != "<dynamic>") = true ∧
+    Generated.CliOptions.guesserAssign.filter (fun a => a.1 == "parse_command_line" && (a.2.1 == "skip_brute" || a.2.1 == "skip_case")) =
+      [("parse_command_line", "skip_brute", "args.skip_brute"), ("parse_command_line", "skip_case", "args.skip_case")] := by
+  decide
 
 end Pcfg.C14
